@@ -235,6 +235,17 @@ def run(tier: str, seed: int) -> int:
         rep.traces_validated += 1
         inp = dict(c)
         bogus = c["from"] == "bogus" or c["to"] == "bogus"
+        # a state no test of the remove set (with its setup) produces for this vm does not exist in the graph either
+        for vm in c["vms"]:
+            members = res.closure(vm, c.get("remove_set") or "leaves")
+            produced = {"install"}
+            for n in res.universe:
+                if n.params["name"] in members:
+                    for key, get, get_state, set_state in res.decl(n, vm):
+                        if set_state:
+                            produced.add(set_state)
+            if (c["to"] or "customize") not in produced and (c.get("remove_set") in (None, "leaves")):
+                bogus = True
         if bogus:
             if r["exc"] is None:
                 rep.violation(f"[{cid}] a state that does not exist was accepted (rc={r['rc']}, runs={len(r['runs'])})", inp, {"kind": "bogus-accepted"})
